@@ -527,6 +527,31 @@ func cgroupScenario(s *Sim, params map[string]string) {
 						}
 					}
 				}
+				// ... and failed attempts are retried: after an error answer to
+				// join / sync / offset-fetch (RebalanceInProgress included, which
+				// is retried at once) the member joins again within the back-off
+				// plus a margin, unless it was closed meanwhile
+				var lastFail time.Duration = -1
+				lastFailWhat := ""
+				for _, r := range cl.Journal {
+					if r.API == nil || clientIDOf(r) != m.clientID {
+						continue
+					}
+					// (an attempt starts with FindCoordinator; the one that
+					// belongs to the LeaveGroup after a failure comes at once)
+					if r.Hdr.APIKey == 11 || (r.Hdr.APIKey == 10 && lastFail >= 0 && r.At >= lastFail+backoff-slack) {
+						lastFail = -1
+					}
+					if (r.Hdr.APIKey == 11 || r.Hdr.APIKey == 14) && r.Resp != nil && r.RespFull {
+						if code := r.Resp.I16("error_code"); code != 0 && code != ErrMemberIDRequired {
+							lastFail, lastFailWhat = r.RespFullAt, fmt.Sprintf("%s answered with error %d", r.API.Name, code)
+						}
+					}
+				}
+				limit := lastFail + backoff + 3*time.Second
+				if lastFail >= 0 && s.Now() > limit && (m.closeInv == 0 || m.closeInvAt > limit) {
+					s.Fail("C15", "R5-no-retry", "member %d: %s at %v; no JoinGroup followed by %v (JoinGroupBackoff %v; the member was not closed before then; run ended %v)", m.k, lastFailWhat, lastFail, limit, backoff, s.Now())
+				}
 			}
 		}
 		n.Shutdown()
